@@ -350,7 +350,15 @@ def r4_legacy(ctx):
                     uses_times = any(isinstance(c, ast.Call) and dotted(c.func) == 'os.utime' and kwarg(c, 'times') is not None for s in h.body for c in ast.walk(s))
                     if {'st_atime_ns', 'st_mtime_ns'} <= ns and {'st_atime', 'st_mtime'} <= leg and uses_times:
                         ok = True
-            uses_ns = any(isinstance(c, ast.Call) and dotted(c.func) == 'os.utime' and kwarg(c, 'ns') is not None for c in ast.walk(t))
+            # the ns= call runs exactly when the nanosecond keys were present: reachable from the normal completion
+            # of the try body, not from the KeyError fallback (try/else or handler-returns-then-call, decided on the CFG)
+            from ..cfg import cfg_of as _cfg_of
+
+            fcfg = _cfg_of(f.node)
+            ns_nodes = [x for c in ast.walk(f.node) if isinstance(c, ast.Call) and dotted(c.func) == 'os.utime' and kwarg(c, 'ns') is not None for x in fcfg.nodes_of(enclosing_stmt(c), 'stmt')]
+            present = (fcfg.nodes_of(t.body[-1], 'ok') or fcfg.nodes_of(t.body[-1], 'stmt')) if t.body else []
+            absent = [x for h in t.handlers for x in fcfg.nodes_of(h, 'handler')]
+            uses_ns = bool(ns_nodes) and any(fcfg.path(p_, ns_nodes, kinds=('normal',)) is not None for p_ in present) and all(fcfg.path(a_, ns_nodes) is None for a_ in absent)
             ok = ok and uses_ns
     ctx.check(ok, 'C14.R4', f'{func_label(f)}|legacy-fallback-restore', loc(f, f.node), 'restore_metadata: ns keys -> os.utime(ns=...), KeyError fallback -> legacy second keys with os.utime(times=...)', 'restore_metadata lost the legacy (pre-1.3) fallback or mixes the units (ns= vs times=)')
     from .c15 import r5_quantities  # time-unit rule for the listing reader is shared
